@@ -303,10 +303,13 @@ def reg(name):
     m = re.match(r"^tmpvar(\d+)$", name)
     if not m:
         raise ExtractError("chain: unknown register %r" % name)
+    if int(m.group(1)) >= 32:
+        raise ExtractError("chain: register index %s beyond the model's register file (32)" % name)
     return int(m.group(1))
 
 
-def chain(rel, fname):
+def chain(rel, fname, kind):
+    """kind = 'field' (square/mul_assign only) or 'point' (double/add_assign/sub_assign/chain_z)."""
     src = strip_comments(read(rel))
     s0, a, b = fn_body(src, fname)
     record("chain:" + fname, rel, src, s0, b + 1)
@@ -317,12 +320,21 @@ def chain(rel, fname):
         (re.compile(r"\s*\*(\w+)\s*=\s*\*?(\w+)\s*;"), "copy"),
         (re.compile(r"\s*let\s+mut\s+(\w+)\s*=\s*\*?(\w+)\s*;"), "copy"),
         (re.compile(r"\s*(\w+)\s*=\s*\*?(\w+)\s*;"), "copy"),
-        (re.compile(r"\s*(\w+)\.(square|double)\(\)\s*;"), "sq1"),
-        (re.compile(r"\s*for\s+_\s+in\s+0\.\.(\d+)\s*\{\s*(\w+)\.(square|double)\(\)\s*;\s*\}"), "sqn"),
-        (re.compile(r"\s*(\w+)\.(mul_assign|add_assign)\(\s*&?(\w+)\s*\)\s*;"), "mul"),
-        (re.compile(r"\s*(\w+)\.(sub_assign)\(\s*&?(\w+)\s*\)\s*;"), "div"),
-        (re.compile(r"\s*chain_z\(\s*(?:&mut\s+)?(\w+)\s*,\s*&?(\w+)\s*\)\s*;"), "callz"),
     ]
+    if kind == "field":
+        pats += [
+            (re.compile(r"\s*(\w+)\.(square)\(\)\s*;"), "sq1"),
+            (re.compile(r"\s*for\s+_\s+in\s+0\.\.(\d+)\s*\{\s*(\w+)\.(square)\(\)\s*;\s*\}"), "sqn"),
+            (re.compile(r"\s*(\w+)\.(mul_assign)\(\s*&?(\w+)\s*\)\s*;"), "mul"),
+        ]
+    else:
+        pats += [
+            (re.compile(r"\s*(\w+)\.(double)\(\)\s*;"), "sq1"),
+            (re.compile(r"\s*for\s+_\s+in\s+0\.\.(\d+)\s*\{\s*(\w+)\.(double)\(\)\s*;\s*\}"), "sqn"),
+            (re.compile(r"\s*(\w+)\.(add_assign)\(\s*&?(\w+)\s*\)\s*;"), "mul"),
+            (re.compile(r"\s*(\w+)\.(sub_assign)\(\s*&?(\w+)\s*\)\s*;"), "div"),
+            (re.compile(r"\s*chain_z\(\s*(?:&mut\s+)?(\w+)\s*,\s*&?(\w+)\s*\)\s*;"), "callz"),
+        ]
     while True:
         if body[pos:].strip() == "":
             break
@@ -619,10 +631,10 @@ def main():
     CH = "src/bls12_381/osswu_map/chain.rs"
     CO = "src/bls12_381/cofactor.rs"
     doc = "straight-line program: (0,d,s) d:=s | (1,d,n) d:=d^(2^n) | (2,d,s) d:=d*s | (3,d,s) d:=d/s | (4,d,s) d:=chain_z(s) ; registers tmpvarN"
-    defs.append(("CHAIN_PM3DIV4", chain(CH, "chain_pm3div4"), doc))
-    defs.append(("CHAIN_P2M9DIV16", chain(CH, "chain_p2m9div16"), doc))
-    defs.append(("CHAIN_Z", chain(CO, "chain_z"), doc))
-    defs.append(("CHAIN_H2_EFF", chain(CO, "chain_h2_eff"), doc))
+    defs.append(("CHAIN_PM3DIV4", chain(CH, "chain_pm3div4", "field"), doc))
+    defs.append(("CHAIN_P2M9DIV16", chain(CH, "chain_p2m9div16", "field"), doc))
+    defs.append(("CHAIN_Z", chain(CO, "chain_z", "point"), doc))
+    defs.append(("CHAIN_H2_EFF", chain(CO, "chain_h2_eff", "point"), doc))
     if emit(os.path.join(GEN, "Chains.lean"), "PP.Gen", defs, ""):
         changed.append("Chains")
 
